@@ -40,8 +40,8 @@ CHECKS = {
                 "final-named objects, success) is compared with the extracted upload machine of that provider.",
         "note": "Partial: the emulator is this check's reading of the provider APIs; thread interleavings are those that arise in the "
                 "runs (the LTS theorem covers all interleavings of the model, not of the code); the machines are compared with the code "
-                "on Ok / Fail replies (the Pending / Async replies of Yandex operations are in the model and its theorems but not yet "
-                "driven through the emulator).",
+                "on Ok / Fail replies everywhere and on Async / Pending replies for the Yandex move (202 + operation that succeeds, "
+                "stays in progress, fails); asynchronous deletes and upload operations are in the model but not driven.",
         "technique": "Coq proof (upload machines under an arbitrary reply oracle; pipeline LTS by reflection) + fault sweep of the real "
                      "binary against a provider emulator",
         "design": "7/C05",
